@@ -2,7 +2,6 @@ package main
 
 import (
 	"go/types"
-
 )
 
 func init() {
